@@ -1,4 +1,5 @@
 import Invoke.Lemmas.RunnerTerm
+import Invoke.Lemmas.RunnerFair
 import Invoke.Lemmas.RunnerTimer
 /-! # C08 — command execution always terminates, leaving no threads or timers behind
 
@@ -42,6 +43,24 @@ theorem rounds_terminate (s : S) (rs : List (List Actor)) (h : Good s) (hc : ∀
   rcases rounds_bound rs s h hc with h1 | h1
   · exact h1
   · omega
+
+/-- INFINITE-SCHEDULE FORM (corollary): along ANY infinite schedule of thread steps that is fair -
+    every thread of the runner is scheduled again and again; nothing is assumed about the order or
+    about the timer - a state in which the process has ended reaches the terminal state after
+    finitely many steps. -/
+theorem fair_termination (σ : Sched) (hf : Fair σ) (s : S) (h : Good s) :
+    ∃ k, Terminal (runRound s (seg σ 0 k)) :=
+  fair_terminates_aux σ hf (mu s) s 0 (Nat.le_refl _) h
+
+/-- round-robin is fair -/
+example : Fair (fun i => match i % 4 with | 0 => Actor.main | 1 => .out | 2 => .err | _ => .stdin) := by
+  intro a ha n
+  cases a with
+  | timer => exact absurd rfl ha
+  | main => exact ⟨4 * n, by omega, by simp [Nat.mul_mod_right]⟩
+  | out => exact ⟨4 * n + 1, by omega, by simp [Nat.add_mod, Nat.mul_mod_right]⟩
+  | err => exact ⟨4 * n + 2, by omega, by simp [Nat.add_mod, Nat.mul_mod_right]⟩
+  | stdin => exact ⟨4 * n + 3, by omega, by simp [Nat.add_mod, Nat.mul_mod_right]⟩
 
 /-- the bound is explicit: bytes still in the pipes, input items still to forward, and the main
     thread's remaining program points -/
